@@ -56,7 +56,9 @@ SPEC = [
         "log_field": "calls_", "handle_lists": ["_subclusters"]}),
     ("bblean/bitbirch.py", {
         "classes": ["BitBirch"],
-        "methods": ["__init__", "tolerance", "merge_criterion", "set_merge"],
+        "methods": ["__init__", "tolerance", "merge_criterion", "set_merge", "reset"],
+        # attributes outside the configuration that `reset` reads; what it assigns outside the followed fields is dropped
+        "self_inputs": ["_root"],
         # the configuration part of the estimator: only these attributes are followed; `__init__` is translated up to the
         # first statement outside the supported subset, and the rest is checked not to assign them
         "fields": ["threshold", "branching_factor", "_merge_accept_fn"],
@@ -887,6 +889,12 @@ class Translator:
                     return (pad + f"let v_ := {val}\n"
                             + self.guarded(pad, "v_", cx, pad + f"let {lean} := v_\n" + self.stmts(rest, cx2, kind, end, ind), ind))
                 return pad + f"let {lean} := {val}\n" + self.stmts(rest, cx2, kind, end, ind)
+            # an assignment to an attribute of ANOTHER object (self.<x>.<y> = v, other.<y> = v): it cannot change a followed field
+            # of self; dropped (frame).  Only in classes whose followed fields are listed explicitly.
+            cls__ = cx.get("cls")
+            if cls__ and self.classes[cls__].get("explicit_fields") and isinstance(tgt, ast.Attribute) and t and t.count(".") >= 2 \
+                    and isinstance(s, ast.Assign):
+                return self.stmts(rest, cx, kind, end, ind)
             raise Unsupported(f"assignment target {src_of(tgt)} (line {s.lineno})")
         if isinstance(s, ast.Return):
             if s.value is None:
@@ -1215,6 +1223,7 @@ class Translator:
                     raise Unsupported(f"class {cname} has no __slots__ tuple")
             if spec.get("fields"):
                 c["fields"] = list(spec["fields"])
+                c["explicit_fields"] = True
             c["partial_init"] = bool(spec.get("partial_init"))
             c["handles"] = list(spec.get("handles", []))
             c["handle_lists"] = list(spec.get("handle_lists", []))
